@@ -26,7 +26,7 @@ from fractions import Fraction
 import numpy as np
 import torch
 
-sys.path[:0] = ['/repo', '/verif']
+sys.path[:0] = [__import__('os').environ.get('DEEPROB_REPO', '/repo'), __import__('os').path.dirname(__import__('os').path.dirname(__import__('os').path.dirname(__import__('os').path.abspath(__file__))))]
 import harness.common as common
 from harness.common import Driver, Infra
 
@@ -34,7 +34,7 @@ from deeprob.spn.models.ratspn import BernoulliRatSpn
 from deeprob.spn.layers.ratspn import SumLayer as RatSumLayer
 
 torch.set_num_threads(1)
-LEAN_DIR = os.environ.get('RATSAMPLE_LEAN', '/verif/lean')
+LEAN_DIR = os.environ.get('RATSAMPLE_LEAN', __import__('os').path.join(__import__('os').path.dirname(__import__('os').path.dirname(__import__('os').path.dirname(__import__('os').path.abspath(__file__)))), 'lean'))
 TOL = 1e-5
 MARGIN = Fraction(1, 10000)
 
